@@ -1,3 +1,5 @@
+use crate::object::Error;
+
 pub(crate) struct SymbolTable {
     /// A vector of contexts
     /// The context at index 0 will always be the global context,
@@ -46,15 +48,17 @@ impl Context {
     }
 
     /// Defines a new symbol in the current context its inner-most scope.
-    fn define(&mut self, name: &str) -> Symbol {
+    /// Returns None if the context is full: a slot number has to fit in 16 bits.
+    fn define(&mut self, name: &str) -> Option<Symbol> {
+        let index = u16::try_from(self.total_len()).ok()?;
         let current_scope = self.symbols.last_mut().unwrap();
         current_scope.push(name.to_string());
         self.max_size += 1;
 
-        Symbol {
-            index: (self.total_len() - 1).try_into().unwrap(),
+        Some(Symbol {
+            index,
             scope: self.scope,
-        }
+        })
     }
 
     /// Resolves a symbol in this context along with its absolute index (relative to the context its top scope)
@@ -64,8 +68,9 @@ impl Context {
         for scope in self.symbols.iter().rev() {
             abs_index -= scope.len();
             if let Some(index) = scope.iter().rposition(|n| n == name) {
-                return Some(Symbol {
-                    index: (abs_index + index).try_into().unwrap(),
+                // define() hands out no slot number beyond 16 bits
+                return u16::try_from(abs_index + index).ok().map(|index| Symbol {
+                    index,
                     scope: self.scope,
                 });
             }
@@ -130,8 +135,12 @@ impl SymbolTable {
     }
 
     /// Define a symbol in the current context (and current scope within that context).
-    pub fn define(&mut self, name: &str) -> Symbol {
-        self.current_context().define(name)
+    pub fn define(&mut self, name: &str) -> Result<Symbol, Error> {
+        self.current_context().define(name).ok_or_else(|| {
+            Error::SyntaxError(format!(
+                "te veel variabelen: er is geen plaats meer voor {name}"
+            ))
+        })
     }
 
     /// Resolve a symbol in either the current context or the global context if no local was found.
